@@ -43,6 +43,9 @@ CHECKS = {
  "C10": dict(cat="model_checking", tech="TLA+ design model of the thread controller (SearchControl.tla) model-checked by TLC + TLC validation of hook-recorded traces of the real engine (Tr_Control.tla) under seeded schedule perturbation",
    text="(1) SearchControl.tla (protocol, engine and helper threads; one action per critical section, notifier operation and mailbox poll) is model-checked exhaustively for several helper trees and command scripts: deadlock freedom, at most one bestmove per search, quiescence at the search=false hand-over, non-negative ack counters, results only for the current job, and under fairness termination and every go answered. (2) The engine built with the TEXEL_VERIF hooks runs seeded command scripts (go/finish, go/stop, ponder/ponderhit, ponder/stop, back-to-back go, Threads changes, quit during search) with Threads 1..8 under seeded priority-based schedule perturbation; events logged inside the critical sections are validated by TLC against Tr_Control.tla, which rebuilds mailboxes, ack counters and job ids with the design's rules and evaluates the monitor (ExactlyOneBest, BestOnlyWhenReleased, QuiescentAtDone/AtStart, AckCountersNonNegative, ResultOnlyForCurrentJob, EverySearchAnswered). Hangs (watchdog), crashes and missing bestmoves are violations; design-only mismatches are reported as MODEL-DRIFT.",
    note="Trusted: TLC, SearchControl.tla/Tr_Control.tla, the hook library sched/vsched.cpp. Real-code schedules are sampled, not enumerated; exhaustive interleaving coverage is on the model."),
+ "C05": dict(cat="model_checking", tech="TLA+ session-contract monitor on hook traces of the real engine (Tr_Control.tla) + TLA+ stdin/stdout/exit monitor on sanitizer-build sessions (Tr_Uci.tla); design model SearchControl.tla",
+   text="Seeded UCI sessions of 3..60 commands over the whole command alphabet (before initialisation, during search, repeated, unknown words, blank lines, every declared option with valid / out-of-range / unknown values, quit or EOF) are run (a) in the hooked engine under schedule perturbation, the hook trace being validated by TLC: readyok before the next command and only for isready, no search output outside a search or after its bestmove, options applied only between searches, every go answered exactly once, plus the C10 monitor; (b) black-box in the ASan+UBSan build, where TLC checks exit status 0, one bestmove per go, one readyok per isready, every output line well-formed, no sanitizer report; (c) a running depth-limited search must give the identical result with and without setoption commands sent while it runs, and the new values must be in effect afterwards.",
+   note="Trusted: TLC, Tr_Control.tla/Tr_Uci.tla, sched/vsched.cpp hooks, the output grammar in tools/checks/c05.py. Four genuine defects were found and fixed (known_findings.json)."),
 }
 
 NOT_APPLICABLE = {
